@@ -85,6 +85,27 @@ func (u *utcNorm) isUTC(e ast.Expr) bool {
 		if !ok || v.IsField() {
 			return false
 		}
+		// parameter of a module function: every call site must pass a UTC-normalised value
+		if fnObj, idx := u.paramOf(v); fnObj != nil {
+			callers := 0
+			okAll := true
+			for _, cfi := range u.c.Funcs(u.c.Pkgs) {
+				cinfo := cfi.Pkg.TypesInfo
+				ast.Inspect(cfi.Decl.Body, func(n ast.Node) bool {
+					call, ok := n.(*ast.CallExpr)
+					if !ok || calleeObj(cinfo, call) != types.Object(fnObj) || idx >= len(call.Args) {
+						return true
+					}
+					callers++
+					sub := &utcNorm{c: u.c, fi: cfi, depth: u.depth}
+					if !sub.isUTC(call.Args[idx]) {
+						okAll = false
+					}
+					return true
+				})
+			}
+			return callers > 0 && okAll
+		}
 		// local variable: every definition / assignment must be UTC-normalised
 		all, any := true, false
 		ast.Inspect(u.fi.Decl, func(n ast.Node) bool {
@@ -136,6 +157,26 @@ func (u *utcNorm) isUTC(e ast.Expr) bool {
 		return any && all
 	}
 	return false
+}
+
+// paramOf: v is the idx-th parameter of the function declaration being analysed.
+func (u *utcNorm) paramOf(v *types.Var) (*types.Func, int) {
+	fd := u.fi.Decl
+	if fd.Type.Params == nil {
+		return nil, 0
+	}
+	info := u.fi.Pkg.TypesInfo
+	i := 0
+	for _, f := range fd.Type.Params.List {
+		for _, n := range f.Names {
+			if info.Defs[n] == types.Object(v) {
+				fn, _ := info.Defs[fd.Name].(*types.Func)
+				return fn, i
+			}
+			i++
+		}
+	}
+	return nil, 0
 }
 
 func (u *utcNorm) mapKeysUTC(m ast.Expr) bool {
